@@ -168,7 +168,20 @@ def s3(prog, ctx, fns, exc):
             ctext = re.sub(r"\(\*__ctype_b_loc\(\)\)\[(.+?)\] & _ISspace", r"isspace(\1)", ctext)
             bounded = any(x.k == "BinaryOperator" and x.j.get("op") in (">", ">=", "<", "<=") and v in (render(x.children[0]), render(x.children[1]))
                           and x.children[0].strip().j.get("ct", "").endswith("*") for x in cond.walk())
-            key = "%s:%s" % (f.name, ctext)
+            origin = ""
+            try:
+                rd3 = ReachingDefs(f) if not hasattr(f, "_rd3") else f._rd3
+                f._rd3 = rd3
+                ds = [d for d in rd3.defs if d.var == v and d.kind in ("init", "assign") and d.rhs is not None and d.node is not None]
+                outside = [d for d in ds if not d.node.within(w) and f.cfg.block_of(w.child("cond")) in f.cfg.reachable(f.cfg.block_of(d.node))]
+                # the definition closest before the loop
+                outside.sort(key=lambda d: d.node.line)
+                outside = [d for d in outside if d.node.line <= w.line][-1:]
+                if len(outside) == 1:
+                    origin = render(outside[0].rhs)
+            except Exception:
+                origin = ""
+            key = "%s:%s:%s" % (f.name, ctext, origin)
             inst = "%s: backward walk `while (%s) %s--`" % (f.name, ctext, v)
             if bounded:
                 ctx.ok("S3", inst, w.where, "the condition carries a lower bound for %s" % v)
@@ -219,11 +232,10 @@ def s8(prog, ctx, fns, exc):
             ctext = render(cond) if cond is not None else ""
             ctext = re.sub(r"\(\*__ctype_b_loc\(\)\)\[(.+?)\] & _ISspace", r"isspace(\1)", ctext)
             inst = "%s: loop at line %d" % (f.name, w.line)
-            hb = [b for b in cfg.blocks.values() if b.term is w]
-            if not hb:
+            hb = cfg.loop_header(w)
+            if hb is None:
                 ctx.inconclusive("S8", inst, w.where, "loop header not found in the CFG")
                 continue
-            hb = hb[0].id
             body = w.child("body")
             calls_in_cond = [x.j.get("callee") for x in (cond.walk() if cond is not None else []) if x.k == "CallExpr"]
             if any(c in ("getline", "getdelim", "fgets") for c in calls_in_cond):
@@ -273,7 +285,7 @@ def s8(prog, ctx, fns, exc):
                 if (x.k == "UnaryOperator" and x.j.get("op") in ("++", "--") and render(x.children[0]) == v) or \
                    (x.k == "CompoundAssignOperator" and render(x.children[0]) == v):
                     adv_blocks.add(cfg.block_of(x))
-            entry = cfg.blocks[hb].succs[0]
+            entry = cfg.loop_body_entry(w)
             stuck = False
             if not in_cond:
                 if not adv_blocks:
@@ -325,9 +337,14 @@ def run(prog, ctx):
     sub = Ctx(ctx.prop, ctx.tier, prog)
     C03.run(prog, sub)
     for ob in sub.obs:
-        if ob.rule in ("M4", "M5"):
+        if ob.rule in ("M4",):
             ob.rule = "S4"
             ctx.obs.append(ob)
+    from rules import common
+    n4 = 0
+    for f in fns:
+        n4 += common.unsigned_minus_indices(ctx, "S4", f)
+    ctx.counts["S4 indices E-k with unsigned E"] = n4
     sub = Ctx(ctx.prop, ctx.tier, prog)
     C14.judge(prog, sub, False)
     for ob in sub.obs:
